@@ -4,6 +4,7 @@ import (
 	"fmt"
 	"go/types"
 	"strings"
+	"sync"
 
 	"bmsym/smt"
 
@@ -794,6 +795,28 @@ func complementChar(c byte) *smt.Term {
 	return smt.ReUnion(rs...)
 }
 
+var (
+	fieldVarMu sync.Mutex
+	fieldVars  = map[*smt.Term]bool{}
+)
+
+func markFieldVar(t *smt.Term) {
+	fieldVarMu.Lock()
+	fieldVars[t] = true
+	fieldVarMu.Unlock()
+}
+
+// isFieldVar: a variable constrained to be a non-empty white-space free
+// string by the Fields model, or such a constant.
+func isFieldVar(t *smt.Term) bool {
+	if t.IsConst() {
+		return t.S != "" && len(strings.Fields(t.S)) == 1 && strings.Fields(t.S)[0] == t.S
+	}
+	fieldVarMu.Lock()
+	defer fieldVarMu.Unlock()
+	return fieldVars[t]
+}
+
 func fieldsModel(in *Interp, st *State, x *smt.Term) []Alt {
 	if x.IsConst() {
 		var elems []Value
@@ -806,6 +829,32 @@ func fieldsModel(in *Interp, st *State, x *smt.Term) []Alt {
 			}
 			return newSlice(in, st, elems)
 		})}
+	}
+	// Fields of a term that is syntactically a single-space Join of fields
+	// (variables introduced as parts by this model, or white-space free
+	// constants) is that list of fields.
+	if x.Op == "str.++" {
+		var parts []Value
+		ok := true
+		for i, a := range x.Args {
+			if i%2 == 0 {
+				if isFieldVar(a) {
+					parts = append(parts, a)
+				} else {
+					ok = false
+					break
+				}
+			} else if !(a.IsConst() && a.S == " ") {
+				ok = false
+				break
+			}
+		}
+		if ok && len(x.Args)%2 == 1 {
+			return []Alt{effRet(func(st *State) Value { return newSlice(in, st, parts) })}
+		}
+	}
+	if isFieldVar(x) {
+		return []Alt{effRet(func(st *State) Value { return newSlice(in, st, []Value{x}) })}
 	}
 	K := in.Cfg.SplitMax
 	// Fields(a·c) with c a constant that starts with white space is
@@ -855,6 +904,7 @@ func fieldsModel(in *Interp, st *State, x *smt.Term) []Alt {
 			cat = append(cat, w0)
 			for i := 0; i < n; i++ {
 				p := st.fresh(fmt.Sprintf("fp%d", i), smt.String)
+				markFieldVar(p)
 				st.assume(smt.InRe(p, reNonWSPlus))
 				elems = append(elems, p)
 				cat = append(cat, p)
